@@ -113,6 +113,13 @@ pub fn gen_world(seed: u64) -> C13World {
     for d in &jdirs {
         dirs.push(d.clone());
     }
+    // sub-directories of library directories: a two-component spelling found through -J, whose file then resolves
+    // its own relative imports against THAT sub-directory
+    for j in jdirs.clone() {
+        if r.chance(1, 2) {
+            dirs.push(format!("{j}/sub"));
+        }
+    }
     // copies may also sit in the working directory itself: the importer directory of a bare-file-name main, and
     // otherwise decoys that nothing may reach (virtual sources have NO importer directory: only -J applies)
     dirs.push(".".into());
@@ -232,6 +239,7 @@ pub fn gen_world(seed: u64) -> C13World {
         match pick {
             0..=6 => name.to_string(),
             7 | 8 => format!("./{name}"),
+            9..=14 if t.ends_with("/sub") && jd.iter().any(|j| t == format!("{j}/sub")) && r.chance(1, 2) => format!("sub/{name}"),
             9 | 10 => format!("<ROOT>/{}", path_of(&t, name)),
             11..=13 => match from_dir {
                 Some(d) => rel_to_target(d),
@@ -324,7 +332,15 @@ pub fn gen_world(seed: u64) -> C13World {
     for (i, n) in NAMES.iter().enumerate() {
         for d in copies[*n].clone() {
             let id = format!("{}@{}", n.trim_end_matches(".libsonnet"), d);
-            let (m, text) = gen_module(&mut r, &id, Some(i), Some(&d), false);
+            let (m, mut text) = gen_module(&mut r, &id, Some(i), Some(&d), false);
+            if r.chance(1, 8) {
+                // a source of several read-buffer sizes (trailing comment: positions of the import sites stay put)
+                text.push_str("// ");
+                for _ in 0..(900 + r.usize_below(4000)) {
+                    text.push_str("padding é€🙂 ");
+                }
+                text.push('\n');
+            }
             let p = path_of(&d, n);
             tree.push((p.clone(), Entry::File(text.into_bytes())));
             modules.insert(p, m);
@@ -341,10 +357,31 @@ pub fn gen_world(seed: u64) -> C13World {
             2 => Vec::new(),
             _ => format!("plain é🙂 @{d}").into_bytes(),
         };
+        // now and then a text of several read-buffer sizes whose 2-, 3- and 4-byte characters straddle every
+        // power-of-two offset (a decoder working chunk by chunk must not care where a chunk ends)
+        let content = if r.chance(1, 8) {
+            let mut v = "x".repeat(r.usize_below(10)).into_bytes();
+            let n = 1500 + r.usize_below(6000);
+            for _ in 0..n {
+                v.extend_from_slice("aé€🙂".as_bytes());
+            }
+            v.extend_from_slice(format!("@{d}").as_bytes());
+            v
+        } else {
+            content
+        };
         tree.push((path_of(&d, "t.txt"), Entry::File(content)));
     }
     for d in copies["u.bin"].clone() {
-        let content: Vec<u8> = if r.chance(1, 3) { (0..=255u8).collect() } else { (0..r.usize_below(12)).map(|_| r.below(256) as u8).collect() };
+        let content: Vec<u8> = if r.chance(1, 3) {
+            (0..=255u8).collect()
+        } else if r.chance(1, 10) {
+            // larger than any single read
+            let n = 20_000 + r.usize_below(50_000);
+            (0..n).map(|i| (i * 7 + i / 251) as u8).collect()
+        } else {
+            (0..r.usize_below(12)).map(|_| r.below(256) as u8).collect()
+        };
         let mut c = content;
         c.extend_from_slice(d.as_bytes());
         tree.push((path_of(&d, "u.bin"), Entry::File(c)));
